@@ -197,12 +197,29 @@ def main(chk: core.Check, replay):
     chk.add_tlc(ra)
     if not api_hists:
         raise core.MachineryFailure("SessionApi emitted no history")
-    api_hists = random.Random(chk.seed).sample(api_hists, min(60 if quick else 800, len(api_hists)))
+    # histories that repeat Split on one model (the client's argument objects are passed a second time) are few:
+    # a fixed share of the sample
+    def repeats_split(h):
+        ms = [c["m"] for c in h["hist"] if c["op"] == "split"]
+        return len(ms) != len(set(ms))
+    rnd = random.Random(chk.seed)
+    rep = [h for h in api_hists if repeats_split(h)]
+    rest = [h for h in api_hists if not repeats_split(h)]
+    nrep = min(len(rep), 15 if quick else 200)
+    api_hists = rnd.sample(rep, nrep) + rnd.sample(rest, min((60 if quick else 800) - nrep, len(rest)))
+    if nrep == 0:
+        raise core.MachineryFailure("no history repeats Split on one model")
     ncalls, bad = sessionapi.replay(api_hists)
     chk.replayed += len(api_hists)
-    chk.extra["api_histories"] = {"histories": len(api_hists), "observable_calls": ncalls, "mismatches": len(bad)}
+    chk.extra["api_histories"] = {"histories": len(api_hists), "repeating_split": nrep, "observable_calls": ncalls, "mismatches": len(bad)}
     for b in bad:
         c = b["call"]
+        if c["op"] == "split":
+            chk.violation(f"C09:api-history:split:{c['m']}", b,
+                          f"the two halves of {c['m']} (to_ode / minus) generated after the calls "
+                          f"{[x['op'] + ':' + x['m'] for x in b['history'][:b['position']]]} with the argument objects the client "
+                          f"kept differ from the same call in a fresh process")
+            continue
         chk.violation(f"C09:api-history:{c['be']}:ru={c['ru']}:sch={c['sch']}", b,
                       f"get_code({c['m']}, backend={c['be']}, remove_unused={c['ru']}, schemes={c['sch']}) after the calls "
                       f"{[x['op'] + ':' + x['m'] for x in b['history'][:b['position']]]} differs from the same call in a fresh process")
